@@ -434,6 +434,36 @@ def _is_key_intersection(it: ast.AST) -> bool:
     return False
 
 
+def nonempty_subject(test: ast.AST, pol: bool) -> Optional[str]:
+    """X when (test, polarity) says "X is not empty" in any of its spellings: `len(X) > 0`, `len(X) != 0`, `len(X) >= 1`, `0 < len(X)`, `X`,
+    and the negations of `len(X) == 0`, `len(X) < 1`, `not X`, `not len(X)`."""
+    while isinstance(test, ast.UnaryOp) and isinstance(test.op, ast.Not):
+        test, pol = test.operand, not pol
+
+    def len_of(e) -> Optional[str]:
+        return norm(e.args[0]) if isinstance(e, ast.Call) and dotted_name(e.func) == 'len' and len(e.args) == 1 else None
+    if isinstance(test, (ast.Name, ast.Attribute)):
+        return norm(test) if pol else None
+    if len_of(test) is not None:
+        return len_of(test) if pol else None
+    if isinstance(test, ast.Compare) and len(test.ops) == 1:
+        l, op, r = test.left, test.ops[0], test.comparators[0]
+        if len_of(r) is not None and isinstance(l, ast.Constant):          # 0 < len(X)  ->  len(X) > 0
+            flip = {ast.Lt: ast.Gt, ast.Gt: ast.Lt, ast.LtE: ast.GtE, ast.GtE: ast.LtE, ast.Eq: ast.Eq, ast.NotEq: ast.NotEq}
+            if type(op) not in flip:
+                return None
+            l, op, r = r, flip[type(op)](), l
+        x = len_of(l)
+        if x is None or not isinstance(r, ast.Constant) or not isinstance(r.value, int):
+            return None
+        k = r.value
+        holds_nonempty = (isinstance(op, ast.Gt) and k == 0) or (isinstance(op, ast.NotEq) and k == 0) or (isinstance(op, ast.GtE) and k == 1)
+        holds_empty = (isinstance(op, ast.Eq) and k == 0) or (isinstance(op, ast.Lt) and k == 1) or (isinstance(op, ast.LtE) and k == 0)
+        if (holds_nonempty and pol) or (holds_empty and not pol):
+            return x
+    return None
+
+
 def check_reader_loop(ctx, fn: FuncInfo, loop: ast.For, call: ast.Call) -> bool:
     """The ReadParameter call is reached for every dictionary entry whose name is in the input map."""
     key = f'{fn.qualname}/reader-loop'
@@ -470,11 +500,23 @@ def check_reader_loop(ctx, fn: FuncInfo, loop: ast.For, call: ast.Call) -> bool:
     for test, pol in guards_of(call, fn.node):
         t = norm(test)
         fine = False
-        if pol and isinstance(test, ast.Compare) and len(test.ops) == 1:
-            if isinstance(test.ops[0], ast.In) and norm(test.comparators[0]).endswith('.InputParameters'):
-                fine = True
-            if isinstance(test.ops[0], ast.Gt) and norm(test.left).startswith('len(') and \
-                    norm(test.left).endswith('.InputParameters)') and norm(test.comparators[0]) == '0':
+        ne = nonempty_subject(test, pol)
+        if ne is not None and ne.endswith('.InputParameters'):
+            fine = True                         # any spelling of "the input map is not empty"
+        core, cpol = test, pol
+        while isinstance(core, ast.UnaryOp) and isinstance(core.op, ast.Not):
+            core, cpol = core.operand, not cpol
+        if isinstance(core, ast.Compare) and len(core.ops) == 1 and norm(core.comparators[0]).endswith('.InputParameters') and \
+                ((cpol and isinstance(core.ops[0], ast.In)) or (not cpol and isinstance(core.ops[0], ast.NotIn))):
+            fine = True                         # `key in X.InputParameters`
+        # `entry = X.InputParameters.get(key)` ... `entry is not None`: the same membership test (entries are objects, never None)
+        if isinstance(core, ast.Compare) and len(core.ops) == 1 and isinstance(core.left, ast.Name) and isinstance(core.comparators[0], ast.Constant) \
+                and core.comparators[0].value is None and \
+                ((cpol and isinstance(core.ops[0], (ast.IsNot, ast.NotEq))) or (not cpol and isinstance(core.ops[0], (ast.Is, ast.Eq)))):
+            from gxstat.inline import enclosing_stmt, inline_sequential
+            st_ = enclosing_stmt(core)
+            src_ = norm(inline_sequential(core.left, st_, cross_loops=True)) if st_ is not None else ''
+            if '.InputParameters.get(' in src_ and src_.endswith(')') and src_.count(',') == 0:
                 fine = True
         if not fine:
             ctx.bad('V3', key, where, f'ReadParameter call is additionally guarded by `{"" if pol else "not "}{t}` '
